@@ -34,32 +34,24 @@ ASSUME = [
 
 
 def ser_state(cons):
-    out = []
-    for c in cons:
-        d = clm.ser_con(c)
-        d['mem'] = [clm.ser_ref(a) for a in getattr(c, '_epigraph_atoms', [])]
-        out.append(d)
-    return out
+    """the state later compilations read: every constraint's own expressions (not the compiler's linearised copy)"""
+    return [clm.ser_con(c) for c in cons]
 
 
 def strip_state(ser):
-    base = clm.strip_for_model(ser)
-    for d, s in zip(base, ser):
-        d['mem'] = [{k: v for k, v in a.items() if k != 'epiname'} for a in s.get('mem', [])]
-    return base
+    return clm.strip_for_model(ser)
 
 
 def canon_post(ser):
     """the mutable part of the state, as the model reports it"""
     out = []
     for s in ser:
-        mem = [{k: v for k, v in a.items() if k != 'epiname'} for a in s.get('mem', [])]
         if s['cls'] == 'elem':
             rows = [{'terms': [[{k: v for k, v in ref.items() if k != 'epiname'}, c] for ref, c in r['terms']], 'off': r['off']}
                     for r in s['rows']]
-            out.append({'cls': 'elem', 'eq': s['eq'], 'rows': rows, 'mem': mem})
+            out.append({'cls': 'elem', 'eq': s['eq'], 'rows': rows})
         else:
-            out.append({'cls': 'setmem', 'mem': mem})
+            out.append({'cls': 'setmem'})
     return out
 
 
@@ -69,12 +61,6 @@ def compile_observe(cons, user_vars):
     from sageopt.coniclifts.base import ScalarVariable
     pre = ser_state(cons)
     epis = clm.epi_vars(pre)
-    seen = {e['ids'][0] for e in epis}
-    for s in pre:
-        for a in s['mem']:
-            if a['epi'] not in seen:
-                seen.add(a['epi'])
-                epis.append({'name': a['epiname'], 'ids': [a['epi']], 'gen': None, 'shape': []})
     cand = [clm.var_info(v) for v in user_vars] + epis
     gens = [v['gen'] for v in cand if v['gen'] is not None]
     for v in cand:
